@@ -963,7 +963,7 @@ impl<K: Hash + Eq, V, E: OnEvictCallback, S: BuildHasher> RawLRU<K, V, E, S> {
     ///
     /// assert_eq!(cache.peek_lru_mut(), Some((&1, &mut "a")));
     /// ```
-    pub fn peek_lru_mut<'a>(&'_ mut self) -> Option<(&'a K, &'a mut V)> {
+    pub fn peek_lru_mut(&mut self) -> Option<(&K, &mut V)> {
         if self.is_empty() {
             return None;
         }
